@@ -66,16 +66,21 @@ def parseLiveCert (cert : String) : Option (ClientCert Nat) :=
 
 /-! ### `c20.chain`: a client presenting a certificate chain -/
 
-/-- `0|1|2` = test certificate i as on file, `r0|r1|r2` = re-issued for key i -/
+/-- `0|1|2` = test certificate i as on file, `r<i>` = re-issued for key i, `l<i>` = leaf for a fresh
+key minted with key i -/
 def parseTestCert (t : String) : Option TestCert :=
-  if t.startsWith "r" then (t.drop 1).toString.toNat?.map .reissued else t.toNat?.map .onFile
+  if t.startsWith "r" then (t.drop 1).toString.toNat?.map .reissued
+  else if t.startsWith "l" then (t.drop 1).toString.toNat?.map .leaf
+  else t.toNat?.map .onFile
 
 def parseChain (s : String) : Option (List TestCert) :=
   if s == "-" then some [] else (s.splitOn ",").mapM parseTestCert
 
-/-- `-` (no key) | `k<i>` -/
+/-- `-` (no key) | `k<i>` (key of test certificate i) | `kl<i>` (the fresh key of `l<i>`) -/
 def parseKey (s : String) : Option (Option Nat) :=
-  if s == "-" then some none else if s.startsWith "k" then (s.drop 1).toString.toNat?.map some else none
+  if s == "-" then some none
+  else if s.startsWith "kl" then (s.drop 2).toString.toNat?.map (fun i => some (100 + i))
+  else if s.startsWith "k" then (s.drop 1).toString.toNat?.map some else none
 
 def isStepHandler (h : String) : Bool := h.startsWith "query::step::"
 
